@@ -43,7 +43,11 @@ func newRunner(r *vh.Rand) vh.Runner {
 	retry := r.Chance(40)
 	vn := pickS(r, []string{"none", "ok", "fail"}, 70, 20, 10)
 	chain := pickS(r, []string{"short", "long"}, 75, 25)
-	rn.plan = append(rn.plan, fmt.Sprintf("scn client=%s retry=%s vn=%s chain=%s", client, boolTxt(retry), vn, chain))
+	zrtt := pickS(r, []string{"none", "accept", "reject", "reject-params"}, 80, 10, 6, 4)
+	if zrtt != "none" {
+		client, retry, vn = "plain", false, "none"
+	}
+	rn.plan = append(rn.plan, fmt.Sprintf("scn client=%s retry=%s vn=%s chain=%s zrtt=%s", client, boolTxt(retry), vn, chain, zrtt))
 	nf := r.Pick(40, 30, 20, 10)
 	for i := 0; i < nf; i++ {
 		kind := pickS(r, []string{"drop", "dup", "delay", "flip", "trunc"}, 40, 20, 15, 20, 5)
@@ -137,7 +141,7 @@ func (rn *runner) Exec(op string) string {
 			return "skip"
 		}
 		m := kv(f[1:])
-		rn.spec = scnSpec{client: m["client"], retry: m["retry"] == "1", vn: m["vn"], chain: m["chain"]}
+		rn.spec = scnSpec{client: m["client"], retry: m["retry"] == "1", vn: m["vn"], chain: m["chain"], zrtt: m["zrtt"]}
 		if rn.spec.client == "" {
 			rn.spec.client = "plain"
 		}
@@ -176,7 +180,11 @@ func (rn *runner) Exec(op string) string {
 		defer running.Store(nil)
 		synctest.Test(theT, func(t *testing.T) {
 			sc.t = t
-			rn.out = sc.run()
+			if sc.spec.zrtt != "" && sc.spec.zrtt != "none" {
+				rn.out = sc.runZeroRTT()
+			} else {
+				rn.out = sc.run()
+			}
 		})
 		if rn.out == nil {
 			return "E:bubble"
